@@ -303,7 +303,7 @@ def mc_cfg(consts, invariants, extra=""):
 
 def msg_models(ctx, names, inv=("ResumeEqFresh", "StableM", "OffsSane", "Idempotent")):
     """Stream instances of the header-line / header-block / whole-message transcriptions (MC_Msg.tla)"""
-    table = dict(hdr=("AtomsHdr", "CfgsHdr", 4, 6, 16), hdrv=("AtomsHdrV", "CfgsHdrV", 2, 3, 60), hdrna=("AtomsHdrNA", "CfgsHdrV", 2, 3, 80),
+    table = dict(hdr=("AtomsHdr", "CfgsHdr", 4, 5, 16), hdrv=("AtomsHdrV", "CfgsHdrV", 2, 3, 60), hdrna=("AtomsHdrNA", "CfgsHdrV", 2, 3, 80),
                  msg=("AtomsMsg", "CfgsMsg", 2, 3, 90), msgs=("AtomsMsgS", "CfgsMsgAll", 3, 4, 90))
     for n in names:
         atoms, cfgs, nq, nt, maxlen = table[n]
